@@ -220,7 +220,7 @@ def call_classifier(mapping):
 # ---------------------------------------------------------------------------
 # Feasible paths with test outcomes and boolean locals
 # ---------------------------------------------------------------------------
-def feasible_paths(fn, classify, normalise=None, flags=(), resolve_ast=None):
+def feasible_paths(fn, classify, normalise=None, flags=(), resolve_ast=None, classify_stmt=None):
     """Paths of `fn` as lists of items
          ('test', text, outcome) | ('ev', label, node) | ('end', kind, node)
     where statements that contain no event, no exit and no assignment to a tracked
@@ -244,6 +244,8 @@ def feasible_paths(fn, classify, normalise=None, flags=(), resolve_ast=None):
             if isinstance(n, ast.Assign) and any(isinstance(t, ast.Name) and t.id in bool_locals for t in n.targets):
                 return True
             if isinstance(n, ast.expr) and classify(n) is not None:
+                return True
+            if classify_stmt is not None and isinstance(n, ast.stmt) and classify_stmt(n) is not None:
                 return True
         return False
 
@@ -323,7 +325,8 @@ def feasible_paths(fn, classify, normalise=None, flags=(), resolve_ast=None):
         if isinstance(st, (ast.Assign, ast.AugAssign, ast.AnnAssign, ast.Expr)):
             tgt = st.targets[0] if isinstance(st, ast.Assign) else getattr(st, "target", None)
             kill = [("kill", src(tgt))] if tgt is not None else []
-            return [(expr_events(st.value) + kill, None)]
+            own = [("ev", classify_stmt(st), st)] if classify_stmt is not None and classify_stmt(st) is not None else []
+            return [(expr_events(st.value) + own + kill, None)]
         return [([], None)]
 
     import re as _re
